@@ -3,7 +3,10 @@
 Tie: the Lean model (`Gen/Flags.lean`: the counter loop of the three C-family flags templates, the filtered Java
 constant list, enum emission, the JNI conversions; `Lang/EnumEval.lean`: sequential-scope evaluation of enumerator
 initialisers) against the real generators: enums and flags with 0..8 items, `none`/`all` in every position and
-multiplicity (exhaustive to length 4 quick / 5 thorough), commented and deprecated items, identifier styles per
+multiplicity (exhaustive to length 4 quick / 5 thorough), commented and deprecated items — including documentation
+texts that can interact with a target's comment syntax (`hazard_docs`: lines ending in backslash runs, comment
+closers, backslash runs before `uXXXX`; the extractor applies C line splicing / javac unicode pre-translation before it
+recognises comments, so an enumerator swallowed by a comment is missing from the observation) — identifier styles per
 target. For every declaration and target the enumerator initialisers are extracted from the generated header with a
 tokenizer, parsed, and evaluated *by the Lean evaluator* (`c08.eval`; a Python evaluator with the same rule is
 cross-checked); the observation `(constant, value | undefined)` is compared with the model (`c08.model`) and the
@@ -43,7 +46,7 @@ THEOREMS = [
 ]
 LEVEL = "proof"
 TRUSTED = (
-    "C08: tokenizer/extractor of enumerator lists in harness/glue.py (strict; validated each run by the g++/clang/javac judges)",
+    "C08: tokenizer/extractor of enumerator lists in harness/glue.py (strict; C line splicing and JLS 3.3 unicode pre-translation applied before comments are recognised; validated each run by the g++/clang/javac judges)",
     "C08: Lang/EnumEval.lean as the meaning of C/C++/ObjC/C++-CLI enumerator initialisers (validated each run against g++ static_asserts)",
     "C08: support library JniEnum/JniFlags (support.cpp) read once and modelled by jniEnum*/jniFlags*; not executed (no JVM embedding here)",
 )
@@ -62,35 +65,97 @@ def shapes_upto(n):
         yield from itertools.product("ona", repeat=k)
 
 
+BS = "\\"
+
+
+def hazard_docs():
+    """Documentation texts (IDL spelling, possibly several lines) of the class *can interact with the comment syntax of
+    a target before or while the compiler recognises the comment*: a line ending in a run of backslashes (C-family line
+    splicing continues a `//` comment over the next generated line; Markdown halves the run, so IDL runs 1..8 give
+    rendered runs of both parities), comment closers/openers, runs of backslashes before `u` (javac translates unicode
+    escapes before it sees the comment: `*`+`/`, a line feed, a malformed escape), code spans (rendered verbatim)."""
+    docs = []
+    for m in range(1, 9):
+        docs.append("path prefix " + BS * m)
+    for m in (1, 2, 3, 4):
+        docs.append("first line " + BS * m + "\nsecond line")
+        docs.append("first line\nlast line " + BS * m)
+        docs.append("span `a" + BS * m + "` " + BS * m)
+    docs += ["closes */ early", "*/", "opens /* a block", "// line in a line", "ends with a slash /", "star at the end *"]
+    for m in range(1, 7):
+        docs.append("esc " + BS * m + "u002a/ after")
+        docs.append("esc " + BS * m + "u000a after")
+        docs.append("`" + BS * m + "u002a/` span")
+    docs += ["C:" + BS + "users" + BS + "me", "C:" + BS * 2 + "users", BS * 3 + "uuu002a/", BS + "u005c" + BS + "u002a/"]
+    return docs
+
+
+def hazard_messages():
+    """@deprecated messages of the same class (they become string literals in attributes)"""
+    return ["keep " + BS, "keep " + BS * 2, 'say "no" ' + BS + '"', "a */ b", BS + "u002a/", BS * 3 + "u0022 x", "tab " + BS + "t and " + BS + "n"]
+
+
+def doc_text(r: random.Random) -> str:
+    k = r.random()
+    if k < 0.45:
+        return r.choice(["plain doc", "doc, with a comma", "two words = sign", "{braces} [x]"])
+    if k < 0.85:
+        return r.choice(hazard_docs())
+    # free composition from the same alphabet
+    parts = ["word", " ", BS, BS * 2, "u002a", "u000a", "*/", "/*", "//", "`", "*", "/", "u", ",", "\n", "x = 1", "}", ";"]
+    return "".join(r.choice(parts) for _ in range(r.randint(1, 8))).strip() or "doc"
+
+
 def make_decl(r: random.Random, idx: int, kind: str, shape, decorate: bool):
     names = r.sample(WORDS, len(shape))
     items = []
     for nm, k in zip(names, shape):
         it = {"name": nm, "all": k == "a", "none": k == "n", "comment": None, "dep": None}
         if decorate and r.random() < 0.35:
-            it["comment"] = r.choice(["plain doc", "doc, with a comma", "two words = sign", "{braces} [x]"])
+            it["comment"] = doc_text(r)
         if decorate and r.random() < 0.25:
-            it["dep"] = r.choice(["", "use the other one", 'quoted "text", comma'])
+            it["dep"] = r.choice(["", "use the other one", 'quoted "text", comma'] + hazard_messages())
         items.append(it)
     d = {"name": f"t{idx}_{'fl' if kind == 'flags' else 'en'}", "kind": kind, "items": items, "comment": None, "dep": None}
     if decorate and r.random() < 0.3:
-        d["comment"] = "type doc"
+        d["comment"] = doc_text(r)
     if decorate and r.random() < 0.15:
-        d["dep"] = "old type"
+        d["dep"] = r.choice(["old type"] + hazard_messages())
     return d
+
+
+def hazard_decls(start: int):
+    """every hazard text once on a non-final item of an enum and on a flag followed by further flags (seed-independent):
+    whatever the comment does to the next generated line shows in the number / values of the constants"""
+    out, i = [], start
+    docs, msgs = hazard_docs(), hazard_messages()
+    for k, doc in enumerate(docs):
+        kind = "enum" if k % 2 == 0 else "flags"
+        msg = msgs[k % len(msgs)] if k % 5 == 0 else None
+        names = [WORDS[(k + j) % len(WORDS)] for j in range(4)]
+        shape = "oooo" if kind == "enum" else ("ooan", "oona", "onoa", "oooo")[k % 4]
+        items = [{"name": nm, "all": c == "a", "none": c == "n", "comment": None, "dep": None} for nm, c in zip(names, shape)]
+        items[0]["comment"] = doc if k % 3 == 0 else None
+        items[1]["comment"] = doc
+        items[1]["dep"] = msg
+        items[3]["comment"] = doc if k % 4 == 0 else None
+        out.append({"name": f"h{i}_{'fl' if kind == 'flags' else 'en'}", "kind": kind, "items": items,
+                    "comment": doc if k % 2 == 0 else None, "dep": None})
+        i += 1
+    return out
 
 
 def render(decls) -> str:
     out = []
     for d in decls:
         if d["comment"]:
-            out.append(f"# {d['comment']}")
+            out += [f"# {line}" for line in d["comment"].split("\n")]
         if d["dep"] is not None:
             out.append(f"# @deprecated {d['dep']}".rstrip())
         out.append(f"{d['name']} = {d['kind']} {{")
         for it in d["items"]:
             if it["comment"]:
-                out.append(f"    # {it['comment']}")
+                out += [f"    # {line}" for line in it["comment"].split("\n")]
             if it["dep"] is not None:
                 out.append(f"    # @deprecated {it['dep']}".rstrip())
             mod = " = all" if it["all"] else " = none" if it["none"] else ""
@@ -125,6 +190,9 @@ def build_programs(ctx):
     r.shuffle(decls_spec)
     per_prog = ctx.n(20, 25)
     programs = []
+    hz = hazard_decls(100000)
+    for pi in range(0, len(hz), per_prog):
+        programs.append({"decls": hz[pi:pi + per_prog], "styles": {}})
     for pi in range(0, len(decls_spec), per_prog):
         chunk = decls_spec[pi:pi + per_prog]
         styles = {}
@@ -427,6 +495,10 @@ def evaluate_programs(ctx, programs, judges=True):
             ctx.stat("items_%d" % len(decl["items"]))
             if any(i["comment"] or i["dep"] is not None for i in decl["items"]):
                 ctx.stat("decorated_items")
+            if any(BS in (i["comment"] or "").split("\n")[-1][-1:] for i in decl["items"][:-1]):
+                ctx.stat("item_comment_ends_in_backslash")
+            if any(re.search(r"\\+u[0-9a-f]{4}", i["comment"] or "") for i in decl["items"]):
+                ctx.stat("item_comment_with_unicode_escape")
             diffs = []
             for t in ("cpp", "objc", "cppcli"):
                 if obs.get(t) != m[t]:
@@ -482,7 +554,7 @@ def evaluate_programs(ctx, programs, judges=True):
 
 def run(ctx):
     ctx.coverage["rule"] = ("enums with 0..8 items and flags with none/all in every position and multiplicity (exhaustive to length 4 quick / 5 thorough, "
-                            "random to length 8), commented/deprecated items, identifier styles; distinct = distinct (kind, none/all shape, styled?); "
+                            "random to length 8), commented/deprecated items incl. every comment-syntax hazard text (backslash runs at line end, before uXXXX, comment closers) on non-final items, identifier styles; distinct = distinct (kind, none/all shape, styled?); "
                             "non-trivial = at least one item; every declaration is observed in cpp, objc, cppcli, java and jni")
     ctx.assumptions += [
         "at most 32 ordinary flags (1u << 32 is outside the model's unbounded naturals; generator uses <= 8 items)",
